@@ -317,6 +317,7 @@ impl<const H: usize> Writer<H> {
         self.sync()?;
 
         self.flushed_offset.set(offset);
+        self.flushed_offset.note_rewrite();
         self.write_offset = offset;
 
         // The buffered writer still points past the truncated data: move it back, so
